@@ -211,6 +211,12 @@ func init() {
 		MinNontrivial: 10,
 		Cases: func(tier string, seed int64) []CaseSpec {
 			cs := chainCases(tier, seed, 48, 640, true)
+			for i := range cs {
+				if i%6 == 5 {
+					// transient failures writing frames while decided rounds are turned into blocks
+					cs[i].P["frameerr"] = int64(60 + 40*(i%5))
+				}
+			}
 			// plus: one DAG delivered to two real Hashgraph instances in different arrival
 			// orders (shape corpus and searched long-election DAGs), which reaches the
 			// coin-round / late-witness corners that random gossip rarely produces
